@@ -271,6 +271,13 @@ func genC05(seed uint64, tier, outdir string) *Report {
 	w := DefaultL1Weights
 	w.Propose, w.Claim, w.Delete, w.AdvanceChance = 20, 30, 8, 55
 	texts = append(texts, runRandomL1(rep, tt, seed+4242, nT+1, nR, length, w, twoBridgeSetup(sec, 2*sec+500000000), mons, []string{"propose", "finalize"})...)
-	writeShardsTerms(outdir, "C05", l1CaseHeader, "run_l1case", "l1case", texts, 16, rep, tt)
+	// one long log per run: more than 100 pending outputs above the deleted index
+	fill, dels := 104, []int{[]int{101, 102, 103}[seed%3]}
+	if tier == "thorough" {
+		fill, dels = 260, []int{129, 257}
+	}
+	long := l1CaseText(longLogCase(rep, "C05", seed+57, len(texts)+1, fill, dels, mons), tt)
+	nf := writeShardsTerms(outdir, "C05", l1CaseHeader, "run_l1case", "l1case", texts, 15, rep, tt, 0)
+	writeShardsTerms(outdir, "C05", l1CaseHeader, "run_l1case", "l1case", []string{long}, 1, rep, tt, nf) // its own file: it is the longest single evaluation
 	return rep
 }
